@@ -237,6 +237,20 @@ def nested_model(kind, n):
                  '<output typeRef="number"><outputValues><text>1, 2, 3</text></outputValues></output>%s</decisionTable>' % (
                      hit, ' aggregation="%s"' % agg if agg else "", rules))
         body = '<decision name="d" id="d"><variable name="d"/>%s</decision>' % table
+    elif kind.startswith("table-outputs:"):
+        # one table with n output clauses; bit i of `named` gives clause i a name, bit i of `defaults` a default output entry; `match` of
+        # its three rules match the constant input (0: the defaults decide)
+        _, hp, named, defaults, match = kind.split(":")
+        named, defaults, match = int(named), int(defaults), int(match)
+        hit = {"U": "UNIQUE", "A": "ANY", "P": "PRIORITY", "F": "FIRST", "R": "RULE ORDER", "O": "OUTPUT ORDER", "C": "COLLECT"}[hp]
+        outs = "".join('<output%s>%s</output>' % (' name="o%d"' % i if named >> i & 1 else "",
+                                                   "<defaultOutputEntry><text>%d</text></defaultOutputEntry>" % (10 + i) if defaults >> i & 1 else "")
+                       for i in range(n))
+        rules = "".join("<rule><inputEntry><text>%s</text></inputEntry>%s</rule>" % (
+            "1" if r < match else "2", "".join("<outputEntry><text>%d</text></outputEntry>" % (r + i) for i in range(n))) for r in range(3))
+        table = ('<decisionTable hitPolicy="%s"><input><inputExpression typeRef="number"><text>1</text></inputExpression></input>%s%s</decisionTable>'
+                 % (hit, outs, rules))
+        body = '<decision name="d" id="d"><variable name="d"/>%s</decision>' % table
     elif kind == "itemdef-lattice":
         w = LATTICE_WIDTH
         out = []
@@ -810,6 +824,13 @@ def graph_cases(ctx):
     for hp in ("U", "A", "P", "F", "R", "O", "C", "C+", "C<", "C>", "C#"):
         for n in (5, 20, 21, 22, 40, 64, 200):
             yield {"graph": "wide-table:" + hp, "depth": n}
+    # output clauses: 1..4 of them, all named / the first one unnamed, a default output entry on every subset, with and without matching rules
+    for hp in ("U", "F", "C", "P"):
+        for k in (1, 2, 3, 4):
+            for named in ((1 << k) - 1, (1 << k) - 2):
+                for defaults in range(1 << k):
+                    for match in (0, 2):
+                        yield {"graph": "table-outputs:%s:%d:%d:%d" % (hp, named, defaults, match), "depth": k}
     # every requirement cycle of up to three elements, through every kind of edge, whose logic follows the cycle: refused when the
     # evaluator is built, or evaluated without exhausting the stack
     for spec in cycle_specs(3):
